@@ -6,7 +6,7 @@ PROP = "C14"
 LEVEL = "proof"
 VARIANTS = [["cg", "dulwich"], ["midx", "dulwich"], ["bitmap", "dulwich"], ["cg+midx+bitmap", "dulwich"],
             ["cg", "git"], ["midx", "git"], ["bitmap", "git"], ["cg+midx+bitmap", "git"]]
-STALE = ["loose", "pack", "repack", "prune"]
+STALE = ["loose", "pack", "repack", "prune", "shallow", "retag"]
 
 
 def run(rep):
@@ -24,8 +24,8 @@ def run(rep):
     rep.trusted += ["C git 2.39.5 commit-graph / multi-pack-index / repack -b as second writer"]
     impl = Impl(PROP, case_timeout=1200)
     model = Model(PROP)
-    reqs = [{"fn": "scenario", "seed": rng.randrange(1 << 30), "n": rng.choice([4, 8, 14]), "variants": VARIANTS, "stale": STALE, "mismatch": True}
-            for _ in range(5 if not thorough else 60)]
+    reqs = [{"fn": "scenario", "seed": rng.randrange(1 << 30), "n": rng.choice([4, 8, 14]), "variants": VARIANTS, "stale": STALE, "mismatch": rng.choice(["foreign", "same-objects-other-layout", "same-objects-other-layout"])}
+            for _ in range(6 if not thorough else 60)]
     for q, r in zip(reqs, impl.run(reqs)):
         base = {"seed": q["seed"], "commits": q["n"]}
         if "variants" not in r:
